@@ -9,7 +9,8 @@ EXPLANATION = (
     'actor loop (floor 2 sites, ceiling: none elsewhere); K2 one owner — no field of Clock holds clock state or a shared cell over it '
     '(channel endpoints excepted), the actor takes the timestamp by value, Clock::new moves the single receiver into exactly one spawned '
     'actor and the receiver is never cloned anywhere in the crate; K3 the answer is the stamp just issued — the value sent on the reply '
-    'channel derives from this iteration\'s send() and get_time returns it unmodified; register_ts reaches recv with the caller\'s stamp. '
+    'channel derives from this iteration\'s send() and get_time returns it unmodified; register_ts reaches recv with the caller\'s stamp, '
+    'and both hand their event to the actor with a waiting send (a try_send would drop it when the queue is full). '
     'With these, distinctness and per-task increase reduce to the sequential clock (C09) and channel FIFO (trusted). '
     'NOT decided: schedules themselves; behaviour after the actor panics on counter exhaustion.')
 ASSUMPTIONS = ['flume and tokio oneshot channels deliver in FIFO order and exactly once', 'sequential clock behaves as decided under C09']
